@@ -228,7 +228,7 @@ def check_requests(ctx, F):
                 ctx.instance("C16.requests", site, {"function": site, "loc": F.floc(fid), "status_events": evs})
                 if sorted(evs) != sorted(want):
                     ctx.violation("C16.requests", site, "%s (%s)" % (site, F.floc(fid)), "%s logs status events %s, expected %s" % (site, evs, want), {})
-    RES = {"deepRequestChangeSelectable": "recordSelectResolution", "deepRequestSelect": "recordSelectResolution",
+    RES = {"deepRequestChangeSelectable": "recordSelectResolution", "deepRequestSelect": "recordSelectResolution", "deepReportChangeSelectable": "recordSelectResolution",
            "deepRequestChangeUtilitarian": "recordUtilityResolution", "deepRequestUtilize": "recordUtilityResolution",
            "deepReportChangeUtilitarian": "recordUtilityResolution", "deepReportUtilize": "recordUtilityResolution", "resolveRandom": "recordRandomResolution"}
     for fid, b in insts(F, "C_", set(RES)):
@@ -238,6 +238,7 @@ def check_requests(ctx, F):
         ctx.instance("C16.requests", site, {"function": site, "loc": F.floc(fid), "logs": calls})
         # exactly one resolution event of the function's kind on every path (several sites are fine when they lie on different paths)
         bad = None
+        bad_arg = None
         for p in sym_paths(F, fid, 2):
             ctx.paths += 1
             if any(ev[0] == "assume" and "logger" in ev[2] and not ev[3] for ev in p):
@@ -245,8 +246,21 @@ def check_requests(ctx, F):
             logs = [F.fn(ev[2])["name"] for ev in p if ev[0] == "call" and ev[2] is not None and F.fn(ev[2])["name"] in LOGGER_METHODS]
             if logs != [RES[b["name"]]]:
                 bad = logs
+            # what is reported is what was resolved: the prong argument is the region's requested prong (resolveRandom: the value it returns)
+            for ev in p:
+                if ev[0] == "call" and ev[2] is not None and F.fn(ev[2])["name"] == RES[b["name"]]:
+                    a = ev[4] or []
+                    prong = a[2] if len(a) > 2 else None
+                    if b["name"] == "resolveRandom":
+                        rets = [e2[2] for e2 in p if e2[0] == "ret"]
+                        if prong is None or not rets or rets[-1] != prong:
+                            bad_arg = "logs prong `%s` but returns `%s`" % (prong, rets[-1] if rets else None)
+                    elif prong is None or "compoRequested" not in prong:
+                        bad_arg = "logs prong `%s`, not the region's requested prong (compoRequested[COMPO_INDEX])" % prong
         if bad is not None or not calls:
             ctx.violation("C16.requests", site, "%s (%s)" % (site, F.floc(fid)), "%s logs %s on a path, expected one %s" % (site, bad, RES[b["name"]]), {})
+        if bad_arg:
+            ctx.violation("C16.requests", site + "/prong", "%s (%s)" % (site, F.floc(fid)), "%s %s: the logger is told a resolution that did not happen" % (site, bad_arg), {})
         elif len(calls[0][1]) >= 3:
             head, prong = calls[0][1][1], calls[0][1][2]
             if head != "HEAD_ID" or prong not in ("requested", "i"):
